@@ -203,7 +203,10 @@ def run(pid, tier, seed, args, t0):
         if f['function'] in seen_native: continue
         seen_native.add(f['function'])
         path = os.path.join(outdir, 'replay', _safe('native__' + f['function']) + '.json')
-        json.dump(dict(property=pid, native_failure=f, note='bounded stand-in found a failing input on the real function while the proof passed: engine/encoding disagreement or a contract the proof does not cover'), open(path, 'w'), indent=1)
+        und = [dict(id=o['id'], clause=o['clause'], where=o.get('where'), smt2=o.get('smt2')) for o in unknown]
+        json.dump(dict(property=pid, native_failure=f, undischarged_obligations=und,
+                       note=('the listed obligations, discharged on the unchanged tree, are no longer discharged (solver gave no counter-model); the bounded stand-in found this failing input / schedule on the real code' if und else
+                             'bounded stand-in found a failing input on the real function while the proof passed: engine/encoding disagreement or a contract the proof does not cover')), open(path, 'w'), indent=1)
         violations.append((dict(id='native:' + f['function'], clause=f.get('clause'), function=f['function']), path, dict(reproduced=True, failure=f)))
     wall = time.time() - t0
     # ---- evidence
